@@ -81,24 +81,39 @@ var siteTable = []struct {
 	{"enterprise.ExecuteEnterpriseTx", "context.Args[0]", -1, "xCtx0"},
 }
 
-// class id of a confirmed finding, per stage/site (known_findings.json lists them); any other
-// stage/site is reported without a class, i.e. as a new violation.
+// class id of a confirmed finding, per stage / site / kind of runtime panic (known_findings.json lists
+// them); anything else - another site, another stage, another way of panicking at the same site - is
+// reported without a class, i.e. as a new violation.
 var knownClass = map[string]string{
-	"admission/tNameUpdTo":  "C14-validateNameTx-updateName-arg1",
-	"admission/tNameOwner0": "C14-validateNameTx-setOwner-noargs",
-	"admission/eAdmin0":     "C14-enterprise-appendAdmin-arg0",
-	"admission/eCheckArgs0": "C14-enterprise-checkArgs-arg0",
-	"admission/gAdmins":     "C14-getAdmins-short-admin",
-	"execution/vDaoVal":     "C14-newVoteCmd-voteDAO-noarg",
-	"execution/rAddSlice":   "C14-addVote-voteBP-candidate-length",
-	"execution/rSubNil":     "C14-subVote-corrupt-old-vote",
+	"admission/tNameUpdTo/conversion":  "C14-validateNameTx-updateName-arg1",
+	"admission/tNameOwner0/index":      "C14-validateNameTx-setOwner-noargs",
+	"admission/eAdmin0/conversion":     "C14-enterprise-appendAdmin-arg0",
+	"admission/eCheckArgs0/conversion": "C14-enterprise-checkArgs-arg0",
+	"admission/gAdmins/slice":          "C14-getAdmins-short-admin",
+	"execution/vDaoVal/index":          "C14-newVoteCmd-voteDAO-noarg",
+	"execution/rAddSlice/slice":        "C14-addVote-voteBP-candidate-length",
+	"execution/rSubNil/nil":            "C14-subVote-corrupt-old-vote",
+}
+
+func panicKind(msg string) string {
+	switch {
+	case strings.Contains(msg, "interface conversion"):
+		return "conversion"
+	case strings.Contains(msg, "index out of range"):
+		return "index"
+	case strings.Contains(msg, "slice bounds out of range"):
+		return "slice"
+	case strings.Contains(msg, "nil pointer dereference"):
+		return "nil"
+	}
+	return "other"
 }
 
 var reported = map[string]int{}
 
-// report records a failure of the property; the first of each stage/site carries the replay.
-func report(run *vh.Run, what, stage, site string, rp interface{}) {
-	k := stage + "/" + site
+// report records a failure of the property; the first of each stage/site/kind carries the replay.
+func report(run *vh.Run, what, stage string, r result, rp interface{}) {
+	k := stage + "/" + r.site + "/" + panicKind(r.msg)
 	reported[k]++
 	run.Count("finding:" + k)
 	if reported[k] == 1 {
@@ -752,11 +767,11 @@ func (w *world) runCase(c *txCase, commit bool) (admit, exec string) {
 			Type: tx.Body.Type.String(), Payload: string(c.payload), Stage: stage, Panic: r.msg, Site: r.site}
 	}
 	if ar.panicked {
-		report(run, "admission of an untrusted transaction panics in "+ar.site+": "+ar.msg, "admission", ar.site, mk("admission", ar))
+		report(run, "admission of an untrusted transaction panics in "+ar.site+": "+ar.msg, "admission", ar, mk("admission", ar))
 	}
 	if er.panicked {
 		if admit == "ok" {
-			report(run, "an admitted transaction panics in block execution at "+er.site+": "+er.msg, "execution", er.site, mk("execution", er))
+			report(run, "an admitted transaction panics in block execution at "+er.site+": "+er.msg, "execution", er, mk("execution", er))
 		} else {
 			run.Count("exec-panic-of-non-admitted-tx")
 		}
@@ -792,7 +807,7 @@ func (w *world) valCase(c *txCase) {
 	w.run.Op(op, "val="+out, out == "ok" || r.panicked)
 	w.run.Count("val:" + out)
 	if r.panicked {
-		report(w.run, "Validate panics in "+r.site+": "+r.msg, "admission", r.site, replay{World: w.worldName(), Rcpt: string(c.rcpt),
+		report(w.run, "Validate panics in "+r.site+": "+r.msg, "admission", r, replay{World: w.worldName(), Rcpt: string(c.rcpt),
 			Type: tx.Body.Type.String(), Payload: string(c.payload), Stage: "Validate", Panic: r.msg, Site: r.site})
 	}
 	// the rest of the pipeline has no model for non-governance types; still: it must not panic
